@@ -95,8 +95,17 @@ def run(prog: Program, rep: Report, tier: str):
         sa = fa_of(prog, shf)
         rep.analysed_add("functions", f"{shf.module.relpath}:{shf.qualname}")
         pp = "permutation"
-        draws = [(n, c) for n, c in sa.calls_named("permutation")]
-        ok = bool(draws)
+        draws = [(n, c) for n, c in sa.calls_named("permutation")] + [(n, c) for n, c in sa.calls_named("randperm")]
+        # the partner vector must be a permutation: the per-sample path scales the partner's clone row in place, so a sample that
+        # is the partner of two others would be mixed in already scaled
+        non_perm = [(n, c) for n, c in sa.calls() if isinstance(c.func, ast.Attribute) and c.func.attr in (
+            "integers", "choice", "random", "randint", "uniform", "multinomial") and sa.sym.term(c.func.value, n) == ("self", "rng")]
+        rep.decide(False if non_perm else (True if draws else None), "G4.partner-threading", shf, "partner-is-permutation",
+                   "random partners are drawn as a permutation of the batch", 
+                   (f"partner indices are drawn with {ast.unparse(non_perm[0][1])[:60]}, not as a permutation: one sample can be the "
+                    f"partner of several, and the partner rows that are scaled in place are then mixed in twice") if non_perm else
+                   "no partner draw recognised", line=non_perm[0][1].lineno if non_perm else shf.node.lineno, clause="C10.1")
+        ok = True if draws else None
         for n, c in draws:
             conds = sa.conds_at(n)
             ok = ok and ("is", tuple(sorted((("const", None), ("param", pp)), key=repr))) in conds
